@@ -309,7 +309,11 @@ class NetModel:
                                 Write(self.expand(eff), n, short(n, 70), _pos(n))
                             )
                 elif meth in DICT_MUTATORS:
-                    root = self._rooted(recv)
+                    sk = n.args[0] if (meth in ("setdefault", "pop", "__setitem__", "__delitem__") and n.args) else None
+                    root = self._rooted(recv, store_key=sk)
+                    if sk is not None and root is not None and root[0] == "graph" and self.const_of(sk) is not None:
+                        # self.nodes[n].setdefault(K, v): one more subscript level than a store
+                        root = ("graph", {ATTR(self.const_of(sk))})
                     if root is not None:
                         kind, facet = root
                         if kind == "graph":
